@@ -225,6 +225,9 @@ def gen_find_case(ch):
     kind = ch.choice(["mapfile", "mapfile", "plain"])
     key = ch.choice(["group", "name", "type", "status"])
     target = ch.choice(["test", "roads", "a", 0, 1, "", "POINT", False, 5])
+    numeric = ch.chance(1, 6)   # a numeric keyword (SIZE): ints and floats side by side
+    if numeric:
+        key, target = "size", ch.choice([8, 10.5, 12, 2.0])
     near = []
     if ch.chance(1, 5):
         # list-valued keywords (EXTENT, COLOR, PROCESSING): find compares the whole value for equality,
@@ -235,6 +238,8 @@ def gen_find_case(ch):
         near = [target + [1], target[:-1], list(reversed(target)) + [0], None, ""] + list(target)
     elif isinstance(target, str):
         near = [target + "1", target[:-1], "x" + target, target.upper(), target + " ", ""]
+    elif numeric:
+        near = [target + 1, target + 0.5, -target, target * 10]
     else:
         near = [target + 1, str(target), None, 0, False, ""]
     lst = []
@@ -252,6 +257,8 @@ def gen_find_case(ch):
         elif m == 3:
             d[key] = ch.choice(near)
             tags.add("near_miss")
+        elif numeric:
+            d[key] = ch.choice([8, 10.5, 12, 2.0, 7, 9.25, 100, 0.5])
         else:
             d[key] = ch.choice(SCALARS)
         if ch.bool():
@@ -317,7 +324,11 @@ def check_find(case):
     unchanged("findall")
     # findunique (string values only)
     present = [dict.__getitem__(d, lk) for d in lst if lk in dict.keys(d)]
-    if all(isinstance(v, str) for v in present):
+    def _num(v):
+        return isinstance(v, (int, float)) and not isinstance(v, bool)
+
+    # (values that sort: all strings, or all numbers - ints and floats mix, as SIZE 8 / SIZE 10.5 do)
+    if all(isinstance(v, str) for v in present) or all(_num(v) for v in present):
         try:
             gotu = mappyfile.findunique(lst, key)
             if gotu != sorted(set(present)):
